@@ -173,4 +173,810 @@ theorem readLoop_length (cfg : Cfg) (length : Nat) (br : Nat) (stream : List Nat
     · simp
 
 
+
+/-! ### readBody -/
+
+theorem readBody_reads (cfg : Cfg) (cl : Option Text) (stream : List Nat) :
+    ∀ e ∈ (readBody cfg cl stream).1, okRead cfg e := by
+  unfold readBody
+  split
+  · simp
+  · split
+    · simp
+    · exact readLoop_reads _ _ _ _
+
+/-- whatever the CONTENT_LENGTH says and whatever the stream does, at most `max_content_length`
+    bytes are obtained from the input -/
+theorem readBody_bounded (cfg : Cfg) (cl : Option Text) (stream : List Nat) :
+    bytesGot (readBody cfg cl stream).1 ≤ cfg.maxLen := by
+  unfold readBody
+  split
+  · simp [bytesGot]
+  · rename_i len _
+    split
+    · simp [bytesGot]
+    · have := readLoop_within cfg len.toNat 0 stream (Nat.zero_le _)
+      omega
+
+/-- ... and never more than the declared length -/
+theorem readBody_within_declared (cfg : Cfg) (cl : Option Text) (stream : List Nat) (d : Int)
+    (hd : declaredLength cfg cl = some d) :
+    bytesGot (readBody cfg cl stream).1 ≤ d.toNat := by
+  unfold readBody
+  rw [hd]
+  simp only
+  split
+  · simp [bytesGot]
+  · have := readLoop_within cfg d.toNat 0 stream (Nat.zero_le _)
+    omega
+
+theorem readBody_done (cfg : Cfg) (cl : Option Text) (stream : List Nat) (n : Nat)
+    (h : (readBody cfg cl stream).2 = .done n) : n = bytesGot (readBody cfg cl stream).1 := by
+  unfold readBody at h ⊢
+  split at h
+  · simp at h
+  · split at h
+    · simp at h
+    · rename_i h2
+      simp only [h2, if_false]
+      have := readLoop_done _ _ _ _ _ h
+      omega
+
+/-- a declared length above the limit is refused before anything is read -/
+theorem readBody_declared_over (cfg : Cfg) (cl : Option Text) (stream : List Nat) (d : Int)
+    (hd : declaredLength cfg cl = some d) (h : d > (cfg.maxLen : Int)) :
+    readBody cfg cl stream = ([], .tooLong) := by
+  unfold readBody
+  rw [hd]
+  simp [h]
+
+/-- the request-too-long fault can only come from the check in front of the loop -/
+theorem readBody_tooLong_iff (cfg : Cfg) (cl : Option Text) (stream : List Nat) :
+    (readBody cfg cl stream).2 = .tooLong ↔ ∃ d, declaredLength cfg cl = some d ∧ d > (cfg.maxLen : Int) := by
+  unfold readBody
+  split
+  · rename_i h; simp [h]
+  · rename_i len h
+    split
+    · rename_i h2
+      simp only [true_iff]
+      exact ⟨len, h, h2⟩
+    · rename_i h2
+      have := readLoop_never_tooLong cfg len.toNat 0 stream (by omega) (Nat.zero_le _)
+      simp only [this, false_iff]
+      rintro ⟨d, hd, hgt⟩
+      rw [h] at hd
+      cases hd
+      omega
+
+theorem readBody_length (cfg : Cfg) (cl : Option Text) (stream : List Nat) :
+    (readBody cfg cl stream).1.length ≤ stream.length + 1 := by
+  unfold readBody
+  split
+  · simp
+  · split
+    · simp
+    · exact readLoop_length _ _ _ _
+
+
+/-! ### what `process` hands to `deliver` -/
+
+/-- a response as the property wants it: finalised after the body, bytes only, and a
+    Content-Length (when there is one) that is the size of the whole body -/
+structure Out.WF (o : Out) : Prop where
+  timing : o.timing = .afterBody
+  bytes : ∀ c ∈ o.chunks, c.2 = true
+  cl : ∀ n, o.cl = some n → n = sum (o.chunks.map (·.1))
+
+def Result.WF : Result → Prop
+  | .crash _ => False
+  | .out o => o.WF ∧ o.closes = .rpc
+
+theorem sum_map_fst_map (l : List Nat) : sum ((l.map (fun n => (n, true))).map (·.1)) = sum l := by
+  induction l with
+  | nil => rfl
+  | cons a t ih => simp [sum] at ih ⊢; exact ih
+
+theorem errorOut_wf (F : Facts13) (req : Req) (preset : Option Nat) (fc : FaultClass)
+    (h : F.closeTiming = .afterBody) : (errorOut F req preset fc).WF := by
+  refine ⟨⟨h, ?_, ?_⟩, rfl⟩
+  · intro c hc; simp at hc; subst hc; rfl
+  · intro n hn; simp at hn; subst hn; simp [sum]
+
+theorem successOut_wf (F : Facts13) (cfg : Cfg) (r : Resp)
+    (h : F.closeTiming = .afterBody) (hj : F.joinKind = .bytes) : (successOut F cfg r).WF := by
+  unfold successOut
+  split
+  · refine ⟨⟨h, ?_, ?_⟩, rfl⟩
+    · intro c hc; simp at hc; obtain ⟨a, _, rfl⟩ := hc; rfl
+    · intro n hn
+      simp only at hn
+      split at hn
+      · cases hn; exact (sum_map_fst_map _).symm
+      · cases hn
+  · rw [hj]
+    refine ⟨⟨h, ?_, ?_⟩, rfl⟩
+    · intro c hc; simp at hc; subst hc; rfl
+    · intro n hn; simp at hn; subst hn; simp [sum]
+
+theorem afterUser_wf (F : Facts13) (cfg : Cfg) (req : Req) (r : Resp) (hF : F.Good) :
+    (afterUser F cfg req r).WF := by
+  obtain ⟨h1, _, h3, _, h5, _⟩ := id hF
+  have hc : (if r.serializeFails then
+        errorOut F req (if F.lateErrorKeepsOkStatus then some (r.preset.getD F.okStatus) else r.preset) .server
+      else successOut F cfg r).WF := by
+    split
+    · exact errorOut_wf _ _ _ _ h1
+    · exact successOut_wf _ _ _ h1 h3
+  unfold afterUser
+  simp only [h5, if_true]
+  split
+  · exact hc
+  · exact hc
+  · exact hc
+  · exact errorOut_wf _ _ _ _ h1
+
+theorem intendedResult_wf (F : Facts13) (cfg : Cfg) (req : Req) (hF : F.Good) :
+    (intendedResult F cfg req).2.WF := by
+  unfold intendedResult
+  split
+  · exact errorOut_wf _ _ _ _ hF.1
+  · exact errorOut_wf _ _ _ _ hF.1
+  · exact errorOut_wf _ _ _ _ hF.1
+  · exact errorOut_wf _ _ _ _ hF.1
+  · exact afterUser_wf _ _ _ _ hF
+
+/-- with the good facts every request is answered: no exception escapes, and the answer is
+    finalised after its body -/
+theorem process_wf (F : Facts13) (cfg : Cfg) (req : Req) (stream : List Nat) (hF : F.Good) :
+    (process F cfg req stream).2.WF := by
+  have h1 := hF.1
+  obtain ⟨_, _, _, h4, _, h6⟩ := id hF
+  unfold process
+  split
+  · exact errorOut_wf _ _ _ _ h1
+  · split
+    · exact intendedResult_wf _ _ _ hF
+    · simp only
+      split
+      · rw [h4]; exact errorOut_wf _ _ _ _ h1
+      · exact errorOut_wf _ _ _ _ h1
+      · simp only [h6, Bool.not_true, Bool.and_false, Bool.false_eq_true, if_false]
+        split
+        · exact errorOut_wf _ _ _ _ h1
+        · split
+          · exact errorOut_wf _ _ _ _ h1
+          · exact intendedResult_wf _ _ _ hF
+
+/-! ### the events in front of the response -/
+
+theorem intendedResult_pre (F : Facts13) (cfg : Cfg) (req : Req) :
+    (intendedResult F cfg req).1 = [] ∨ (intendedResult F cfg req).1 = [.user] := by
+  unfold intendedResult
+  split <;> simp
+
+theorem process_pre (F : Facts13) (cfg : Cfg) (req : Req) (stream : List Nat) :
+    ∃ us, (process F cfg req stream).1 =
+        (if req.preReject || !req.readsBody then [] else (readBody cfg req.contentLength stream).1) ++ us
+      ∧ (us = [] ∨ us = [.user]) := by
+  unfold process
+  split
+  · rename_i h; exact ⟨[], by simp [h], Or.inl rfl⟩
+  · rename_i h
+    split
+    · rename_i h2
+      refine ⟨(intendedResult F cfg req).1, by simp [h2], intendedResult_pre _ _ _⟩
+    · rename_i h2
+      simp only [h, h2, Bool.false_or]
+      simp only [Bool.not_eq_true, Bool.not_eq_false'] at h2
+      simp only [Bool.false_eq_true, if_false]
+      split
+      · split
+        · exact ⟨[], by simp, Or.inl rfl⟩
+        · split <;> exact ⟨[], by simp, Or.inl rfl⟩
+      · exact ⟨[], by simp, Or.inl rfl⟩
+      · split
+        · split <;> exact ⟨[], by simp, Or.inl rfl⟩
+        · split
+          · exact ⟨[], by simp, Or.inl rfl⟩
+          · exact ⟨(intendedResult F cfg req).1, rfl, intendedResult_pre _ _ _⟩
+
+
+/-! ### handing the body over -/
+
+/-- an event `process` can emit in front of the response -/
+def isPre (e : Ev) : Bool := isRead e || isUser e
+
+theorem mem_chunkEvs {cs : List (Nat × Bool)} {e : Ev} (h : e ∈ chunkEvs cs) :
+    ∃ n b, e = .chunk n b ∧ (n, b) ∈ cs := by
+  simp only [chunkEvs, List.mem_map] at h
+  obtain ⟨c, hc, rfl⟩ := h
+  exact ⟨c.1, c.2, rfl, hc⟩
+
+theorem countP_chunkEvs (p : Ev → Bool) (hp : ∀ n b, p (.chunk n b) = false) (cs : List (Nat × Bool)) :
+    List.countP p (chunkEvs cs) = 0 := by
+  rw [List.countP_eq_zero]
+  intro e he
+  obtain ⟨n, b, rfl, _⟩ := mem_chunkEvs he
+  simp [hp]
+
+theorem countP_pre (p : Ev → Bool) (hp : ∀ e, isPre e = true → p e = false) (pre : List Ev)
+    (hpre : ∀ e ∈ pre, isPre e = true) : List.countP p pre = 0 := by
+  rw [List.countP_eq_zero]
+  intro e he
+  simp [hp e (hpre e he)]
+
+theorem bodyBytes_chunkEvs (cs : List (Nat × Bool)) : bodyBytes (chunkEvs cs) = sum (cs.map (·.1)) := by
+  induction cs with
+  | nil => rfl
+  | cons c t ih => simp [chunkEvs, bodyBytes, sum] at ih ⊢; omega
+
+theorem bodyBytes_pre (pre : List Ev) (hpre : ∀ e ∈ pre, isPre e = true) : bodyBytes pre = 0 := by
+  induction pre with
+  | nil => rfl
+  | cons e t ih =>
+    have he := hpre e (by simp)
+    have := ih (fun x hx => hpre x (by simp [hx]))
+    cases e <;> simp_all [bodyBytes, isPre, isRead, isUser]
+
+theorem bodyBytes_finalEvs (c : Closes) : bodyBytes (finalEvs c) = 0 := by
+  cases c <;> rfl
+
+theorem sum_take_le (l : List Nat) (k : Nat) : sum (l.take k) ≤ sum l := by
+  induction l generalizing k with
+  | nil => simp [sum]
+  | cons a t ih =>
+    cases k with
+    | zero => simp [sum]
+    | succ k => have := ih k; simp [sum] at this ⊢; omega
+
+theorem taken_sizes_le (abort : Option Nat) (cs : List (Nat × Bool)) :
+    sum ((taken abort cs).map (·.1)) ≤ sum (cs.map (·.1)) := by
+  cases abort with
+  | none => exact Nat.le_refl _
+  | some k => simp only [taken, List.map_take]; exact sum_take_le _ _
+
+theorem taken_sub (abort : Option Nat) (cs : List (Nat × Bool)) : ∀ c ∈ taken abort cs, c ∈ cs := by
+  cases abort with
+  | none => exact fun _ h => h
+  | some k => exact fun _ h => List.mem_of_mem_take h
+
+theorem taken_length_le (k : Nat) (cs : List (Nat × Bool)) : (taken (some k) cs).length ≤ k := by
+  simp [taken]; omega
+
+theorem deliver_after (o : Out) (abort : Option Nat) (h : o.timing = .afterBody) :
+    deliver o abort =
+      .startResponse o.status o.fault o.cl :: .returned :: (chunkEvs (taken abort o.chunks) ++ finalEvs o.closes) := by
+  simp [deliver, h]
+
+/-- the shape every answered request has when the facts are good -/
+structure Answered (tr : List Ev) (abort : Option Nat) (pre : List Ev) (o : Out) : Prop where
+  eq : tr = pre ++ deliver o abort
+  pre : ∀ e ∈ pre, isPre e = true
+  timing : o.timing = .afterBody
+  cl : ∀ n, o.cl = some n → n = sum (o.chunks.map (·.1))
+
+theorem Answered.start_once {tr abort pre o} (h : Answered tr abort pre o) :
+    List.countP isStart tr = 1 := by
+  rw [h.eq, deliver_after _ _ h.timing, List.countP_append,
+    countP_pre isStart (by intro e; cases e <;> simp [isPre, isRead, isUser, isStart]) pre h.pre]
+  simp only [List.countP_cons, List.countP_append, isStart,
+    countP_chunkEvs isStart (by intros; rfl)]
+  cases o.closes <;> simp [finalEvs, isStart]
+
+theorem Answered.start_before_chunks {tr abort pre o} (h : Answered tr abort pre o) :
+    noneBefore isChunk isStart tr = true := by
+  rw [h.eq, deliver_after _ _ h.timing, noneBefore_append_pre]
+  · simp [noneBefore, isStart]
+  · intro e he
+    have := h.pre e he
+    cases e <;> simp_all [isPre, isRead, isUser, isChunk, isStart]
+
+theorem Answered.no_crash {tr abort pre o} (h : Answered tr abort pre o) :
+    ∀ e ∈ tr, isCrash e = false := by
+  intro e he
+  rw [h.eq, deliver_after _ _ h.timing] at he
+  simp only [List.mem_append, List.mem_cons] at he
+  rcases he with he | rfl | rfl | he | he
+  · have := h.pre e he
+    cases e <;> simp_all [isPre, isRead, isUser, isCrash]
+  · rfl
+  · rfl
+  · obtain ⟨n, b, rfl, _⟩ := mem_chunkEvs he; rfl
+  · cases hc : o.closes <;> simp [hc, finalEvs] at he <;> (try rcases he with rfl | rfl) <;> (try subst he) <;> rfl
+
+theorem Answered.content_length {tr abort pre o} (h : Answered tr abort pre o) (s : Nat)
+    (f : Option FaultClass) (n : Nat) (hm : Ev.startResponse s f (some n) ∈ tr) :
+    bodyBytes tr ≤ n ∧ (abort = none → bodyBytes tr = n) := by
+  have hcl : o.cl = some n := by
+    rw [h.eq, deliver_after _ _ h.timing] at hm
+    simp only [List.mem_append, List.mem_cons] at hm
+    rcases hm with hm | hm | hm | hm | hm
+    · have := h.pre _ hm; simp [isPre, isRead, isUser] at this
+    · injection hm with _ _ h3; exact h3.symm
+    · cases hm
+    · obtain ⟨_, _, h1, _⟩ := mem_chunkEvs hm; cases h1
+    · cases hc : o.closes <;> simp [hc, finalEvs] at hm
+  have hn := h.cl n hcl
+  have hb : bodyBytes tr = sum ((taken abort o.chunks).map (·.1)) := by
+    rw [h.eq, deliver_after _ _ h.timing, bodyBytes_append, bodyBytes_pre _ h.pre]
+    simp only [bodyBytes, bodyBytes_append, bodyBytes_chunkEvs, bodyBytes_finalEvs]
+    omega
+  constructor
+  · rw [hb, hn]; exact taken_sizes_le _ _
+  · intro ha; rw [hb, hn, ha]; rfl
+
+theorem Answered.chunks_of {tr abort pre o} (h : Answered tr abort pre o) (n : Nat) (b : Bool)
+    (hm : Ev.chunk n b ∈ tr) : (n, b) ∈ o.chunks := by
+  rw [h.eq, deliver_after _ _ h.timing] at hm
+  simp only [List.mem_append, List.mem_cons] at hm
+  rcases hm with hm | hm | hm | hm | hm
+  · have := h.pre _ hm; simp [isPre, isRead, isUser] at this
+  · cases hm
+  · cases hm
+  · obtain ⟨n', b', h1, h2⟩ := mem_chunkEvs hm
+    cases h1
+    exact taken_sub _ _ _ h2
+  · cases hc : o.closes <;> simp [hc, finalEvs] at hm
+
+theorem Answered.abort_respected {tr pre o} (k : Nat) (h : Answered tr (some k) pre o) :
+    List.countP isChunk tr ≤ k := by
+  rw [h.eq, deliver_after _ _ h.timing, List.countP_append,
+    countP_pre isChunk (by intro e; cases e <;> simp [isPre, isRead, isUser, isChunk]) pre h.pre]
+  simp only [List.countP_cons, List.countP_append, isChunk]
+  have h1 : List.countP isChunk (chunkEvs (taken (some k) o.chunks)) ≤ k :=
+    Nat.le_trans (List.countP_le_length) (by simpa [chunkEvs] using taken_length_le k o.chunks)
+  have h2 : List.countP isChunk (finalEvs o.closes) = 0 := by cases o.closes <;> rfl
+  simp at h1 ⊢
+  omega
+
+theorem Answered.closed_once {tr abort pre o} (h : Answered tr abort pre o) (hc : o.closes ≠ .never) :
+    List.countP isClosed tr = 1 ∧ noneAfter isChunk isClosed tr = true ∧
+    noneBefore isClosed isReturned tr = true := by
+  rw [h.eq, deliver_after _ _ h.timing]
+  refine ⟨?_, ?_, ?_⟩
+  · rw [List.countP_append,
+      countP_pre isClosed (by intro e; cases e <;> simp [isPre, isRead, isUser, isClosed]) pre h.pre]
+    simp only [List.countP_cons, List.countP_append, isClosed,
+      countP_chunkEvs isClosed (by intros; rfl)]
+    cases hcl : o.closes with
+    | rpc => simp [finalEvs, isClosed, List.countP_cons]
+    | wsdl => simp [finalEvs, isClosed, List.countP_cons]
+    | never => exact absurd hcl hc
+  · rw [noneAfter_append_pre]
+    · simp only [noneAfter, isClosed, Bool.false_eq_true, if_false]
+      rw [noneAfter_append_pre]
+      · cases hcl : o.closes <;> simp_all [finalEvs, noneAfter, isClosed, isChunk]
+      · intro e he; obtain ⟨n, b, rfl, _⟩ := mem_chunkEvs he; rfl
+    · intro e he
+      have := h.pre e he
+      cases e <;> simp_all [isPre, isRead, isUser, isClosed]
+  · rw [noneBefore_append_pre]
+    · simp [noneBefore, isReturned, isClosed]
+    · intro e he
+      have := h.pre e he
+      cases e <;> simp_all [isPre, isRead, isUser, isClosed, isReturned]
+
+theorem Answered.wsgi_close_once {tr abort pre o} (h : Answered tr abort pre o) (hc : o.closes = .rpc) :
+    List.countP isWsgiClose tr = 1 ∧ noneAfter isChunk isWsgiClose tr = true := by
+  rw [h.eq, deliver_after _ _ h.timing]
+  refine ⟨?_, ?_⟩
+  · rw [List.countP_append,
+      countP_pre isWsgiClose (by intro e; cases e <;> simp [isPre, isRead, isUser, isWsgiClose]) pre h.pre]
+    simp [List.countP_cons, List.countP_append, isWsgiClose,
+      countP_chunkEvs isWsgiClose (by intros; rfl), hc, finalEvs]
+  · rw [noneAfter_append_pre]
+    · simp only [noneAfter, isWsgiClose, Bool.false_eq_true, if_false]
+      rw [noneAfter_append_pre]
+      · simp [hc, finalEvs, noneAfter, isWsgiClose]
+      · intro e he; obtain ⟨n, b, rfl, _⟩ := mem_chunkEvs he; rfl
+    · intro e he
+      have := h.pre e he
+      cases e <;> simp_all [isPre, isRead, isUser, isWsgiClose]
+
+
+/-! ### from `handle` to the answered shape -/
+
+theorem pre_of_process (F : Facts13) (cfg : Cfg) (req : Req) (stream : List Nat) :
+    ∀ e ∈ (process F cfg req stream).1, isPre e = true := by
+  obtain ⟨us, heq, hus⟩ := process_pre F cfg req stream
+  rw [heq]
+  intro e he
+  simp only [List.mem_append] at he
+  rcases he with he | he
+  · split at he
+    · simp at he
+    · have := readBody_reads cfg req.contentLength stream e he
+      cases e <;> simp_all [okRead, isPre, isRead]
+  · rcases hus with rfl | rfl
+    · simp at he
+    · simp at he; subst he; rfl
+
+theorem wsdlOut_timing (F : Facts13) (k : WsdlKind) : (wsdlOut F k).timing = F.wsdlCloseTiming := by
+  cases k <;> rfl
+
+theorem wsdlOut_cl (F : Facts13) (k : WsdlKind) (n : Nat) (h : (wsdlOut F k).cl = some n) :
+    n = sum ((wsdlOut F k).chunks.map (·.1)) := by
+  cases k <;> simp [wsdlOut] at h ⊢
+  subst h; simp [sum]
+
+/-- with the good facts, every request ends in an answer of the shape `Answered` -/
+theorem handle_answered (F : Facts13) (cfg : Cfg) (req : Req) (stream : List Nat) (abort : Option Nat)
+    (hF : F.Good) :
+    ∃ pre o, Answered (handle F cfg req stream abort) abort pre o ∧
+      (req.wsdl = none → pre = (process F cfg req stream).1 ∧ (process F cfg req stream).2 = .out o ∧
+        o.closes = .rpc ∧ ∀ c ∈ o.chunks, c.2 = true) ∧
+      (∀ k, req.wsdl = some k → pre = [] ∧ o = wsdlOut F k) := by
+  cases hw : req.wsdl with
+  | some k =>
+    refine ⟨[], wsdlOut F k, ⟨?_, ?_, ?_, ?_⟩, ?_, ?_⟩
+    · simp [handle, hw]
+    · simp
+    · rw [wsdlOut_timing]; exact hF.2.1
+    · exact wsdlOut_cl F k
+    · intro h; cases h
+    · intro k' h; cases h; exact ⟨rfl, rfl⟩
+  | none =>
+    have hwf := process_wf F cfg req stream hF
+    cases hr : (process F cfg req stream).2 with
+    | crash c => rw [hr] at hwf; exact hwf.elim
+    | out o =>
+      rw [hr] at hwf
+      refine ⟨(process F cfg req stream).1, o, ⟨?_, pre_of_process _ _ _ _, hwf.1.timing, hwf.1.cl⟩, ?_, ?_⟩
+      · simp [handle, hw, hr, finish]
+      · intro _; exact ⟨rfl, rfl, hwf.2, hwf.1.bytes⟩
+      · intro k h; cases h
+
+/-! ### statements that need no fact at all -/
+
+theorem bytesGot_deliver (o : Out) (abort : Option Nat) : bytesGot (deliver o abort) = 0 := by
+  have h1 : ∀ cs, bytesGot (chunkEvs cs) = 0 := by
+    intro cs; induction cs with
+    | nil => rfl
+    | cons c t ih => simpa [chunkEvs, bytesGot] using ih
+  have h2 : ∀ c, bytesGot (finalEvs c) = 0 := by intro c; cases c <;> rfl
+  unfold deliver
+  split <;> simp [bytesGot, bytesGot_append, h1, h2]
+
+theorem bytesGot_finish (r : Result) (abort : Option Nat) : bytesGot (finish r abort) = 0 := by
+  cases r with
+  | crash c => rfl
+  | out o => exact bytesGot_deliver o abort
+
+theorem bytesGot_users (us : List Ev) (h : us = [] ∨ us = [.user]) : bytesGot us = 0 := by
+  rcases h with rfl | rfl <;> rfl
+
+/-- the bytes a request obtains from `wsgi.input` are those of its body reader -/
+theorem bytesGot_handle (F : Facts13) (cfg : Cfg) (req : Req) (stream : List Nat) (abort : Option Nat) :
+    bytesGot (handle F cfg req stream abort) = 0 ∨
+    bytesGot (handle F cfg req stream abort) = bytesGot (readBody cfg req.contentLength stream).1 := by
+  unfold handle
+  split
+  · left; exact bytesGot_deliver _ _
+  · obtain ⟨us, heq, hus⟩ := process_pre F cfg req stream
+    simp only [bytesGot_append, bytesGot_finish, heq, bytesGot_users us hus]
+    split
+    · left; rfl
+    · right; omega
+
+/-- for a request whose protocol reads the body, the bytes obtained are exactly those of the reader -/
+theorem bytesGot_handle_reads (F : Facts13) (cfg : Cfg) (req : Req) (stream : List Nat) (abort : Option Nat)
+    (hw : req.wsdl = none) (hp : req.preReject = false) (hb : req.readsBody = true) :
+    bytesGot (handle F cfg req stream abort) = bytesGot (readBody cfg req.contentLength stream).1 := by
+  obtain ⟨us, heq, hus⟩ := process_pre F cfg req stream
+  simp only [handle, hw, bytesGot_append, bytesGot_finish, heq, bytesGot_users us hus, hp, hb]
+  simp
+
+theorem isRead_deliver (o : Out) (abort : Option Nat) : ∀ e ∈ deliver o abort, isRead e = false ∧ isUser e = false := by
+  intro e he
+  unfold deliver at he
+  have h1 : ∀ e ∈ chunkEvs (taken abort o.chunks), isRead e = false ∧ isUser e = false := by
+    intro e he; obtain ⟨n, b, rfl, _⟩ := mem_chunkEvs he; exact ⟨rfl, rfl⟩
+  have h2 : ∀ e ∈ finalEvs o.closes, isRead e = false ∧ isUser e = false := by
+    intro e he
+    cases hc : o.closes <;> simp [hc, finalEvs] at he <;> (try rcases he with rfl | rfl) <;> (try subst he) <;> exact ⟨rfl, rfl⟩
+  split at he <;> simp only [List.mem_cons, List.mem_append] at he
+  · rcases he with rfl | rfl | he | he
+    · exact ⟨rfl, rfl⟩
+    · exact ⟨rfl, rfl⟩
+    · exact h1 e he
+    · exact h2 e he
+  · rcases he with rfl | he | rfl | he
+    · exact ⟨rfl, rfl⟩
+    · exact h2 e he
+    · exact ⟨rfl, rfl⟩
+    · exact h1 e he
+
+theorem isRead_finish (r : Result) (abort : Option Nat) : ∀ e ∈ finish r abort, isRead e = false ∧ isUser e = false := by
+  cases r with
+  | crash c => intro e he; simp [finish] at he; subst he; exact ⟨rfl, rfl⟩
+  | out o => exact isRead_deliver o abort
+
+
+/-! ### user code, the size limit -/
+
+theorem intendedResult_user (F : Facts13) (cfg : Cfg) (req : Req)
+    (h : Ev.user ∈ (intendedResult F cfg req).1) :
+    (∃ fc p, req.intended = .userFault fc p) ∨ (∃ r, req.intended = .success r) := by
+  unfold intendedResult at h
+  split at h <;> simp at h
+  · rename_i fc p hi; exact Or.inl ⟨fc, p, hi⟩
+  · rename_i r hi; exact Or.inr ⟨r, hi⟩
+
+/-- the user function is entered only for a request whose document calls it and, when the
+    protocol reads a body, only after the complete document has arrived -/
+theorem process_user (F : Facts13) (cfg : Cfg) (req : Req) (stream : List Nat)
+    (h : Ev.user ∈ (process F cfg req stream).1) :
+    ((∃ fc p, req.intended = .userFault fc p) ∨ (∃ r, req.intended = .success r)) ∧
+    req.preReject = false ∧
+    (req.readsBody = true →
+      0 < bytesGot (readBody cfg req.contentLength stream).1 ∧
+      req.docLen ≤ bytesGot (readBody cfg req.contentLength stream).1 ∧
+      ∀ d, declaredLength cfg req.contentLength = some d → d ≤ (cfg.maxLen : Int)) := by
+  have hnr : ∀ e ∈ (readBody cfg req.contentLength stream).1, e ≠ Ev.user := by
+    intro e he hu
+    have := readBody_reads cfg req.contentLength stream e he
+    subst hu; exact this
+  unfold process at h
+  split at h
+  · simp at h
+  · rename_i hp
+    simp only [Bool.not_eq_true] at hp
+    split at h
+    · rename_i hb
+      refine ⟨intendedResult_user F cfg req h, hp, ?_⟩
+      intro hb'; simp [hb'] at hb
+    · simp only at h
+      split at h
+      · split at h
+        · exact absurd rfl (hnr _ h)
+        · split at h <;> exact absurd rfl (hnr _ h)
+      · exact absurd rfl (hnr _ h)
+      · rename_i n hn
+        have hdone := readBody_done _ _ _ _ hn
+        split at h
+        · split at h <;> exact absurd rfl (hnr _ h)
+        · split at h
+          · exact absurd rfl (hnr _ h)
+          · rename_i h0 hdoc
+            simp only [List.mem_append] at h
+            rcases h with h | h
+            · exact absurd rfl (hnr _ h)
+            · refine ⟨intendedResult_user F cfg req h, hp, fun _ => ⟨by omega, by omega, ?_⟩⟩
+              intro d hd
+              by_cases hgt : d > (cfg.maxLen : Int)
+              · have := readBody_declared_over cfg req.contentLength stream d hd hgt
+                rw [this] at hn; cases hn
+              · omega
+
+theorem countP_user_process (F : Facts13) (cfg : Cfg) (req : Req) (stream : List Nat) :
+    List.countP isUser (process F cfg req stream).1 ≤ 1 := by
+  obtain ⟨us, heq, hus⟩ := process_pre F cfg req stream
+  rw [heq, List.countP_append]
+  have h1 : List.countP isUser (if (req.preReject || !req.readsBody) = true then []
+      else (readBody cfg req.contentLength stream).1) = 0 := by
+    rw [List.countP_eq_zero]
+    intro e he
+    split at he
+    · simp at he
+    · have := readBody_reads cfg req.contentLength stream e he
+      cases e <;> simp_all [okRead, isUser]
+  rw [h1]
+  rcases hus with rfl | rfl <;> decide
+
+/-- a request whose declared length exceeds the limit: nothing is read, the user function is not
+    entered, the answer is the request-too-long fault -/
+theorem process_declared_over (F : Facts13) (cfg : Cfg) (req : Req) (stream : List Nat) (d : Int)
+    (hp : req.preReject = false) (hb : req.readsBody = true)
+    (hd : declaredLength cfg req.contentLength = some d) (h : d > (cfg.maxLen : Int)) :
+    process F cfg req stream = ([], errorOut F req none .tooLong) := by
+  unfold process
+  simp [hp, hb, readBody_declared_over cfg req.contentLength stream d hd h]
+
+theorem noneAfter_of_none (p q : Ev → Bool) (l : List Ev) (h : ∀ e ∈ l, p e = false) :
+    noneAfter p q l = true := by
+  induction l with
+  | nil => rfl
+  | cons e t ih =>
+    have ht : ∀ x ∈ t, p x = false := fun x hx => h x (by simp [hx])
+    simp only [noneAfter]
+    split
+    · simp only [Bool.not_eq_true', List.any_eq_false]
+      intro x hx; simp [ht x hx]
+    · exact ih ht
+
+/-- every `read` precedes the user function and `start_response` -/
+theorem reads_first (F : Facts13) (cfg : Cfg) (req : Req) (stream : List Nat) (abort : Option Nat) :
+    noneAfter isRead (fun e => isUser e || isStart e) (handle F cfg req stream abort) = true := by
+  unfold handle
+  split
+  · exact noneAfter_of_none _ _ _ (fun e he => (isRead_deliver _ _ e he).1)
+  · obtain ⟨us, heq, hus⟩ := process_pre F cfg req stream
+    show noneAfter _ _ ((process F cfg req stream).1 ++ finish (process F cfg req stream).2 abort) = true
+    rw [heq, List.append_assoc, noneAfter_append_pre]
+    · apply noneAfter_of_none
+      intro e he
+      simp only [List.mem_append] at he
+      rcases he with he | he
+      · rcases hus with rfl | rfl <;> simp at he; subst he; rfl
+      · exact (isRead_finish _ _ e he).1
+    · intro e he
+      split at he
+      · simp at he
+      · have := readBody_reads cfg req.contentLength stream e he
+        cases e <;> simp_all [okRead, isUser, isStart]
+
+theorem countP_isRead_le (l : List Ev) : List.countP isRead l ≤ l.length := List.countP_le_length
+
+/-- the reader terminates with the stream: one `read` per element, plus at most one at its end -/
+theorem reads_le_stream (F : Facts13) (cfg : Cfg) (req : Req) (stream : List Nat) (abort : Option Nat) :
+    List.countP isRead (handle F cfg req stream abort) ≤ stream.length + 1 := by
+  have hz : ∀ l : List Ev, (∀ e ∈ l, isRead e = false) → List.countP isRead l = 0 := by
+    intro l hl; rw [List.countP_eq_zero]; intro e he; simp [hl e he]
+  unfold handle
+  split
+  · rw [hz _ (fun e he => (isRead_deliver _ _ e he).1)]; omega
+  · obtain ⟨us, heq, hus⟩ := process_pre F cfg req stream
+    show List.countP isRead ((process F cfg req stream).1 ++ finish (process F cfg req stream).2 abort) ≤ _
+    rw [heq, List.countP_append, List.countP_append, hz _ (fun e he => (isRead_finish _ _ e he).1)]
+    have h2 : List.countP isRead us = 0 := by rcases hus with rfl | rfl <;> rfl
+    rw [h2]
+    split
+    · simp
+    · have := readBody_length cfg req.contentLength stream
+      have := countP_isRead_le (readBody cfg req.contentLength stream).1
+      omega
+
+/-- every `read` asks for at most a block and obtains at most what it asked for -/
+theorem reads_ok (F : Facts13) (cfg : Cfg) (req : Req) (stream : List Nat) (abort : Option Nat)
+    (a g : Nat) (h : Ev.read a g ∈ handle F cfg req stream abort) : a ≤ cfg.blockLen ∧ g ≤ a := by
+  unfold handle at h
+  split at h
+  · exact absurd (isRead_deliver _ _ _ h).1 (by simp [isRead])
+  · obtain ⟨us, heq, hus⟩ := process_pre F cfg req stream
+    replace h : Ev.read a g ∈ (process F cfg req stream).1 ++ finish (process F cfg req stream).2 abort := h
+    rw [heq] at h
+    simp only [List.mem_append] at h
+    rcases h with (h | h) | h
+    · split at h
+      · simp at h
+      · exact readBody_reads cfg req.contentLength stream _ h
+    · rcases hus with rfl | rfl <;> simp at h
+    · exact absurd (isRead_finish _ _ _ h).1 (by simp [isRead])
+
+/-! ### Content-Length when not chunked -/
+
+theorem errorOut_cl (F : Facts13) (req : Req) (p : Option Nat) (fc : FaultClass) :
+    ∃ o, errorOut F req p fc = .out o ∧ o.cl = some req.faultLen := ⟨_, rfl, rfl⟩
+
+theorem process_unchunked_cl (F : Facts13) (cfg : Cfg) (req : Req) (stream : List Nat) (o : Out)
+    (hF : F.Good) (hc : cfg.chunked = false) (ho : (process F cfg req stream).2 = .out o) :
+    ∃ n, o.cl = some n := by
+  obtain ⟨_, _, h3, h4, h5, h6⟩ := id hF
+  have hs : ∀ r o, successOut F cfg r = .out o → ∃ n, o.cl = some n := by
+    intro r o h; simp [successOut, hc, h3] at h; subst h; exact ⟨_, rfl⟩
+  have he : ∀ p fc o, errorOut F req p fc = .out o → ∃ n, o.cl = some n := by
+    intro p fc o h; simp [errorOut] at h; subst h; exact ⟨_, rfl⟩
+  have ha : ∀ r o, afterUser F cfg req r = .out o → ∃ n, o.cl = some n := by
+    intro r o h
+    unfold afterUser at h
+    simp only [h5, if_true] at h
+    split at h
+    all_goals first
+      | (split at h <;> first | exact he _ _ _ h | exact hs _ _ h)
+      | exact he _ _ _ h
+  have hi : ∀ o, (intendedResult F cfg req).2 = .out o → ∃ n, o.cl = some n := by
+    intro o h
+    unfold intendedResult at h
+    split at h
+    all_goals first | exact he _ _ _ h | exact ha _ _ h
+  unfold process at ho
+  split at ho
+  · exact he _ _ _ ho
+  · split at ho
+    · exact hi _ ho
+    · simp only at ho
+      split at ho
+      · rw [h4] at ho; exact he _ _ _ ho
+      · exact he _ _ _ ho
+      · simp only [h6, Bool.not_true, Bool.and_false, Bool.false_eq_true, if_false] at ho
+        split at ho
+        · exact he _ _ _ ho
+        · split at ho
+          · exact he _ _ _ ho
+          · exact hi _ ho
+
+
+/-! ### the status given to `start_response` -/
+
+theorem errorOut_status (F : Facts13) (req : Req) (fc : FaultClass) (o : Out)
+    (h : errorOut F req none fc = .out o) : StatusSource F req o.status := by
+  simp [errorOut] at h; subst h
+  simp only [faultStatus]
+  split
+  · exact Or.inr (Or.inl ⟨fc, rfl⟩)
+  · exact Or.inl ⟨fc, rfl⟩
+
+theorem process_status (F : Facts13) (cfg : Cfg) (req : Req) (stream : List Nat) (o : Out)
+    (ho : (process F cfg req stream).2 = .out o) : StatusSource F req o.status := by
+  have he : ∀ fc o, errorOut F req none fc = .out o → StatusSource F req o.status := errorOut_status F req
+  -- a status the user function chose, or the default
+  have hp : ∀ (p : Option Nat) (dflt : Nat), (∀ x, p = some x → x ∈ req.presets) →
+      StatusSource F req dflt → StatusSource F req (p.getD dflt) := by
+    intro p dflt hp hd
+    cases p with
+    | none => exact hd
+    | some x => exact Or.inr (Or.inr (Or.inr (Or.inr (hp x rfl))))
+  have hfs : ∀ fc, StatusSource F req (faultStatus F req fc) := by
+    intro fc; simp only [faultStatus]; split
+    · exact Or.inr (Or.inl ⟨fc, rfl⟩)
+    · exact Or.inl ⟨fc, rfl⟩
+  have hok : StatusSource F req F.okStatus := Or.inr (Or.inr (Or.inr (Or.inl rfl)))
+  have hi : ∀ o, (intendedResult F cfg req).2 = .out o → StatusSource F req o.status := by
+    intro o h
+    unfold intendedResult at h
+    split at h
+    · exact he _ _ h
+    · exact he _ _ h
+    · exact he _ _ h
+    · rename_i fc preset hint
+      simp [errorOut] at h; subst h
+      exact hp _ _ (by intro x hx; subst hx; simp [Req.presets, hint]) (hfs fc)
+    · rename_i r hint
+      have hpr : ∀ x, r.preset = some x → x ∈ req.presets := by
+        intro x hx; simp [Req.presets, hint, hx]
+      have hs : ∀ o, successOut F cfg r = .out o → StatusSource F req o.status := by
+        intro o h
+        unfold successOut at h
+        split at h
+        · simp at h; subst h; exact hp _ _ hpr hok
+        · split at h
+          · simp at h; subst h; exact hp _ _ hpr hok
+          · split at h
+            · simp at h; subst h; exact hp _ _ hpr hok
+            · cases h
+      have hc : ∀ o, (if r.serializeFails then
+            errorOut F req (if F.lateErrorKeepsOkStatus then some (r.preset.getD F.okStatus) else r.preset) .server
+          else successOut F cfg r) = .out o → StatusSource F req o.status := by
+        intro o h
+        split at h
+        · simp only [errorOut, Result.out.injEq] at h; subst h
+          cases hk : F.lateErrorKeepsOkStatus
+          · simp only [Bool.false_eq_true, if_false]; exact hp _ _ hpr (hfs .server)
+          · simp only [if_true, Option.getD_some]; exact hp _ _ hpr hok
+        · exact hs _ h
+      unfold afterUser at h
+      simp only at h
+      split at h
+      · exact hc _ h
+      · exact hc _ h
+      · split at h
+        · exact hc _ h
+        · cases h
+      · split at h
+        · rename_i fc _ _
+          simp [errorOut] at h; subst h
+          exact hp _ _ hpr (hfs fc)
+        · cases h
+  unfold process at ho
+  split at ho
+  · simp [errorOut] at ho; subst ho; exact Or.inr (Or.inr (Or.inl rfl))
+  · split at ho
+    · exact hi _ ho
+    · simp only at ho
+      split at ho
+      · split at ho
+        · exact he _ _ ho
+        · split at ho
+          · cases ho
+          · exact he _ _ ho
+      · exact he _ _ ho
+      · split at ho
+        · split at ho
+          · cases ho
+          · exact he _ _ ho
+        · split at ho
+          · exact he _ _ ho
+          · exact hi _ ho
+
 end SpyneModel.Wsgi
